@@ -248,6 +248,9 @@ def run(F, rep):
         # the segment descriptors (which group, which in-group id) are part of the round trip: their codec clauses are shared (C02-PRED = C03-PRED)
         if o["rule"] in ("C02-PRED", "C02-SIB", "C02-META"):
             rep.ob("C01-DESC", o["instance"], o["ok"], detail=o["detail"], site=o["site"], how=o["how"], key=o["key"].replace("C02-", "C01-DESC/"))
+    if getattr(F, "cfg", "dev") == "dev":
+        from rules import c03 as c03v
+        c03v.vint_rule(F, rep, "C01-DESC", want=("rt",))       # raw lengths and ids of the descriptors travel through this code
     c09.alpha_rules(F, rep, "C01")
     c09.empty_rules(F, rep, "C01")     # "empty delta = copy of the reference" is only sound if the encoder emits it for equal segments only
     c09.pred_rules(F, rep, "C01")
